@@ -248,10 +248,50 @@ func clusterMatchesManifest(w *world, manifest string) bool {
 func H01Crash() {
 	w := newWorld(newFaultPlan(0, 0, "both"))
 	prepareHistory(w, 1+ndChoice("history", 2))
+	pre := w.history()
+	maxPre := pre[len(pre)-1].Version
 	w.f.crashes = 1
-	stepOp(w, 0)
+	createdBefore := len(w.store.created)
+	var crashed bool
+	kind := ""
+	switch ndChoice("op", 4) {
+	case 0:
+		kind = "upgrade"
+		up := NewUpgrade(w.config())
+		up.Namespace, up.Atomic, up.MaxHistory = "default", ndBool("atomic"), ndIntRange("maxhist", 0, 1)
+		_, crashed = w.runOp(func() error { _, e := up.Run(relName, mkChart(1, ndBool("hook")), map[string]interface{}{}); return e })
+	case 1:
+		kind = "rollback"
+		rb := NewRollback(w.config())
+		_, crashed = w.runOp(func() error { return rb.Run(relName) })
+	case 2:
+		kind = "uninstall"
+		un := NewUninstall(w.config())
+		un.KeepHistory = ndBool("keephistory")
+		_, crashed = w.runOp(func() error { _, e := un.Run(relName); return e })
+	case 3:
+		kind = "install"
+		inst := NewInstall(w.config())
+		inst.ReleaseName, inst.Namespace, inst.Replace = relName, "default", true
+		_, crashed = w.runOp(func() error { _, e := inst.Run(mkChart(1, false), map[string]interface{}{}); return e })
+	}
+	vTag(ledgerTag(kind, pre, w.f.fired, "crash-harness"))
+	vObservef("%s crashed=%v at %v -> %s", kind, crashed, w.f.fired, histString(w.history()))
+	checkLedger(w, pre, kind)
+	for k, v := range w.store.created[createdBefore:] {
+		vAssert("ledger/new-revision-is-max+1", v == maxPre+1+k)
+	}
+	if !crashed {
+		return
+	}
+	// recovery: a plain upgrade by a new process must leave a well-formed ledger
 	w.f.crashes = 0
-	stepOp(w, 1)
+	pre2 := w.history()
+	up := NewUpgrade(w.config())
+	up.Namespace = "default"
+	_, _ = w.runOp(func() error { _, e := up.Run(relName, mkChart(0, false), map[string]interface{}{}); return e })
+	vTag(ledgerTag("recovery-upgrade", pre2, nil, "after crash in "+kind))
+	checkLedger(w, pre2, "recovery-upgrade")
 }
 
 // H03AtomicAfterFailed: history 1:deployed 2:failed, then an atomic upgrade in
